@@ -50,10 +50,11 @@ theorem pst13_batch_single_false_rejected (vk : PST.VK F) (cs : List F) (zs : Li
 whose accumulation is `(C, V)` is `defectCombined vk C V z π = 0`, the summand of the batch. -/
 theorem pst13_check_is_summand (vk : PST.VK F) (cs z vs : List F) (π : PST.Proof F) (ξs : List F)
     (a : F × F × List F) (hacc : PST.accumulate 0 0 cs vs ξs = .ok a)
+    (hnv : π.w.length = vk.numVars)
     (hlen : π.w.length ≤ vk.betaH.length ∧ π.w.length ≤ z.length) :
     PST.check vk cs z vs π ξs = .ok (decide (PST.defectCombined vk a.1 a.2.1 z π = 0)) := by
   unfold PST.check
-  rw [hacc]
+  rw [if_neg (not_not.mpr hnv), hacc]
   simp only
   rw [if_neg (by omega)]
 
